@@ -465,15 +465,36 @@ class TopologicalNode(object):
 
         # Flag control points owned by other top-level objects with -1
         # (on sections of every dimension: a patch may touch an earlier one along an edge or a corner only)
+        # and flag with -2 the repeated occurrences of a node among our own sections (a patch that meets
+        # itself, e.g. a ring cut open along a seam): those points are numbered once, at the first occurrence
+        first, repeated = {}, []
         for d in range(self.pardim):
             for node, section in zip(self.lower_nodes[d], sections(self.pardim, d)):
                 if node.owner is not self:
                     numbers[_section_to_index(section)] = -1
+                elif id(node) in first:
+                    repeated.append((section, first[id(node)]))
+                else:
+                    first[id(node)] = section
+        for section, _ in repeated:
+            index = _section_to_index(section)
+            numbers[index] = np.where(numbers[index] == -1, -1, -2)
 
         # Fill in control point numbers for the ones we do own
-        mask = np.where(numbers != -1)
+        mask = np.where(numbers >= 0)
         nowned = len(mask[0])
         numbers[mask] = np.arange(start, start + nowned, dtype=int)
+
+        # Repeated sections take the numbers of the first occurrence (higher-dimensional sections first,
+        # so that their edges and corners are settled before being looked at on their own)
+        for section, original in reversed(repeated):
+            ori = Orientation.compute(
+                self.obj.section(*section, unwrap_points=False),
+                self.obj.section(*original, unwrap_points=False),
+            )
+            index = _section_to_index(section)
+            copied = ori.map_array(numbers[_section_to_index(original)])
+            numbers[index] = np.where(numbers[index] == -1, -1, copied)
 
         # This method takes care of communicating results to children
         self.assign_cp_numbers(numbers)
@@ -485,10 +506,13 @@ class TopologicalNode(object):
 
         # Control point numbers for owned children must be communicated to them
         if self.pardim > 0:
+            done = set()
             for node, section in zip(self.lower_nodes[-1], sections(self.pardim, self.pardim-1)):
-                if node.owner is self or node.owner is self.owner:
+                if (node.owner is self or node.owner is self.owner) and id(node) not in done:
                     # Since this runs in a direct line of ownership, we don't need to be concerned with
-                    # orientations not matching up.
+                    # orientations not matching up (a node occurring twice is served by its first occurrence,
+                    # which is the section it was created from).
+                    done.add(id(node))
                     node.assign_cp_numbers(numbers[_section_to_index(section)])
 
     def read_cp_numbers(self):
